@@ -320,6 +320,9 @@ pub struct Case {
     pub horizon_ms: Ms,
     /// 16-byte shared secret the honest client uses
     pub secret: [u8; 16],
+    /// the client sends exactly what the script says (searches over explicit packet histories); otherwise it also
+    /// answers a Cookie Request the script did not foresee before it turns to the Encryption Response
+    pub strict_script: bool,
 }
 
 impl Default for Case {
@@ -334,6 +337,7 @@ impl Default for Case {
             rng_seed: 0,
             horizon_ms: 200_000,
             secret: *b"0123456789abcdef",
+            strict_script: false,
         }
     }
 }
@@ -531,6 +535,9 @@ struct Shared {
     script: Vec<Step>,
     next_step: usize,
     script_pending: bool,
+    /// login-phase Cookie Responses sent so far
+    cookie_answers: usize,
+    strict_script: bool,
     echo: Echo,
     unsolicited_every: Option<Ms>,
     unsolicited_sent: usize,
@@ -655,7 +662,10 @@ impl Shared {
             Act::StatusRequest => self.emit_frame(&codec::sb_status_request(), g),
             Act::Ping(p) => self.emit_frame(&codec::sb_ping(*p), g),
             Act::LoginStart { name, uuid } => self.emit_frame(&codec::sb_login_start(name, *uuid), g),
-            Act::Cookie { key, payload } => self.emit_frame(&codec::sb_login_cookie_response(key, payload.as_deref()), g),
+            Act::Cookie { key, payload } => {
+                self.emit_frame(&codec::sb_login_cookie_response(key, payload.as_deref()), g);
+                self.cookie_answers += 1;
+            }
             Act::EncResponse(kind) => {
                 let (s, t) = self.enc_response(kind);
                 self.emit_frame(&codec::sb_encryption_response(&s, &t), g);
@@ -776,6 +786,19 @@ impl Shared {
     fn client_on_idle(&mut self, now: Ms) -> bool {
         if self.script_pending || self.next_step >= self.script.len() {
             return false;
+        }
+        // A client answers every Cookie Request it is sent. The script only knows the requests the present router
+        // makes; if the server waits with a Cookie Request unanswered while the script's next move is the Encryption
+        // Response (and no Encryption Request has arrived), the client answers "no such cookie" first - as a real
+        // client would. (Scripts that deliberately send something else in that place are left alone.)
+        if !self.strict_script && matches!(self.script[self.next_step].act, Act::EncResponse(_)) && self.token.is_none() {
+            let asked: Vec<String> = self.packets.iter().filter_map(|(_, p)| if let Pkt::LoginCookieRequest { key } = p { Some(key.clone()) } else { None }).collect();
+            if asked.len() > self.cookie_answers {
+                let key = asked[self.cookie_answers].clone();
+                self.emit_frame(&codec::sb_login_cookie_response(&key, None), now);
+                self.cookie_answers += 1;
+                return true;
+            }
         }
         let step = self.script[self.next_step].clone();
         self.next_step += 1;
@@ -1325,6 +1348,8 @@ fn new_shared(case: &Case) -> Arc<Mutex<Shared>> {
         script: case.script.clone(),
         next_step: 0,
         script_pending: false,
+        cookie_answers: 0,
+        strict_script: case.strict_script,
         echo: case.echo.clone(),
         unsolicited_every: case.unsolicited_every,
         unsolicited_sent: 0,
@@ -1796,7 +1821,19 @@ pub fn many_connections_faults(i: usize, case: &Case, obs: &Obs, secret: &[u8]) 
     // (a player admitted by a cookie may be given a refreshed authentication cookie as well: no property forbids it)
     let mut with_refresh = want_kinds.clone();
     with_refresh.insert(with_refresh.len() - 1, "StoreCookie");
-    let order_ok = obs.kinds() == want_kinds || (returning && obs.kinds() == with_refresh);
+    // (and the authentication Cookie Request may be made of anybody: "optionally", says the statement)
+    fn one_request(v: &[&'static str]) -> Vec<&'static str> {
+        let mut out: Vec<&'static str> = vec![];
+        for k in v {
+            if *k == "LoginCookieRequest" && out.last() == Some(&"LoginCookieRequest") {
+                continue;
+            }
+            out.push(*k);
+        }
+        out
+    }
+    let got_kinds = one_request(&obs.kinds());
+    let order_ok = got_kinds == one_request(&want_kinds) || (returning && got_kinds == one_request(&with_refresh));
     if !order_ok || obs.garbled.is_some() || obs.partial_tail > 0 {
         v.push(("order", format!("connection #{i} of the process was answered with {:?} (undecodable {:?}); expected {want_kinds:?}", obs.kinds(), obs.garbled)));
     }
